@@ -21,6 +21,7 @@ import (
 	"regexp"
 	"slices"
 	"sort"
+	"strconv"
 	"strings"
 	"testing"
 	"time"
@@ -114,6 +115,17 @@ func (c Case) lookback() time.Duration {
 	d, err := time.ParseDuration(c.LookbackRange)
 	if err != nil {
 		panic("bad lookback " + c.LookbackRange)
+	}
+	return d
+}
+
+func (c Case) step() time.Duration {
+	if c.LookbackRange == "" || c.LookbackStep == "" {
+		return 5 * time.Minute
+	}
+	d, err := time.ParseDuration(c.LookbackStep)
+	if err != nil {
+		panic("bad step " + c.LookbackStep)
 	}
 	return d
 }
@@ -667,7 +679,9 @@ func check(c Case) (out outcome, err error) {
 	srv.ResetLog()
 
 	lb := c.lookback()
-	window := fmt.Sprintf("%ds", int((lb + 10*time.Minute).Seconds()))
+	// "no sample during the lookback window": an evaluation at the window start sees samples up to the staleness
+	// delta (5m) older than it, so the oracle's window is (now - lookback - 5m, now] - left-open like a range selector
+	window := fmt.Sprintf("%ds", int((lb + promsrv.LookbackDelta).Seconds()))
 	probe := func(at time.Time) (map[string]bool, map[string]bool, error) {
 		present, empty := map[string]bool{}, map[string]bool{}
 		for _, s := range sels {
@@ -724,7 +738,7 @@ func check(c Case) (out outcome, err error) {
 	out.PresentNow, out.NoSamples = p0, e0
 	out.InZone = map[string]bool{}
 	for _, at := range []time.Time{anchor, time.Now()} { // pint read the clock somewhere in between
-		zone := alignmentZone(db, at, lb)
+		zone := alignmentZone(db, at, lb, c.step())
 		for _, s := range sels {
 			for m, in := range zone {
 				if in && s.selects(m) {
@@ -816,25 +830,38 @@ func check(c Case) (out outcome, err error) {
 	return out, nil
 }
 
-// sliceGrid is the grid pint aligns its range-query slices to (promapi.RangeQuery: (2h).Round(step), which is 2h
-// for every step the cases use).
-const sliceGrid = 2 * time.Hour
-
-// alignmentZone reports, per metric name, whether the database holds a sample that a range query over
-// [now-lookback, now] sliced the way pint slices it can see although it lies before the lookback window: pint's
-// first slice starts at the sliceGrid instant at or before (now - lookback), and an evaluation step at t sees
-// samples in (t - 5m, t]. The zone ends 10 minutes before the window start, where the oracle's own window
-// (lookback + 10m) begins, so "in the zone" and "in the window" never overlap.
-func alignmentZone(db *promsrv.DB, now time.Time, lookback time.Duration) map[string]bool {
-	start := now.Add(-lookback)
-	zoneStart := start.Truncate(sliceGrid) // aligned to even UTC hours, like time.Round in sliceRange
-	lo := zoneStart.Add(-promsrv.LookbackDelta).UnixMilli()
-	hi := start.Add(-10 * time.Minute).UnixMilli()
+// alignmentZone reports, per metric name, whether the database holds a sample that lies before the oracle's
+// window (now - lookback - 5m, now] and that pint's range query over [now-lookback, now] nevertheless evaluates:
+//
+//   - pint sends a lookback shorter than the slice size ((2h).Round(step)) as ONE query starting exactly at
+//     now-lookback: nothing before the window is evaluated, the zone is empty;
+//   - longer lookbacks are cut into slices aligned to the slice-size grid, the first slice starts at the grid
+//     instant at or before now-lookback and is evaluated every step from there; a step at t sees samples in
+//     (t - 5m, t].
+//
+// A sample at T is in the zone when T <= now-lookback-5m and some evaluation instant t of the first slice
+// satisfies T <= t < T+5m.
+func alignmentZone(db *promsrv.DB, now time.Time, lookback, step time.Duration) map[string]bool {
 	out := map[string]bool{}
+	sliceSize := (2 * time.Hour).Round(step)
+	if sliceSize > lookback {
+		return out
+	}
+	start := now.Add(-lookback)
+	zoneStart := start.Truncate(sliceSize).UnixMilli() // same absolute grid as time.Round in sliceRange
+	hi := start.Add(-promsrv.LookbackDelta).UnixMilli()
+	stepMs, delta := step.Milliseconds(), promsrv.LookbackDelta.Milliseconds()
 	for _, ser := range db.Series {
 		name := ser.Labels["__name__"]
 		for _, p := range ser.Points {
-			if p.T > lo && p.T <= hi {
+			if p.T > hi || p.T <= zoneStart-delta {
+				continue
+			}
+			k := int64(0)
+			if p.T > zoneStart {
+				k = (p.T - zoneStart + stepMs - 1) / stepMs
+			}
+			if t := zoneStart + k*stepMs; t < p.T+delta {
 				out[name] = true
 				break
 			}
@@ -904,7 +931,7 @@ var (
 	labelsAB  = []string{"a", "b"}
 	matchVals = []string{"1", "2"}
 	regexVals = []string{"1|2", "2|3", ".+", "1.*"}
-	patterns  = []string{"now", "never", "other", "gone_old", "gone_recent", "flap_on", "flap_off", "old_only", "old_flap", "long_gone", "late", "just_now"}
+	patterns  = []string{"now", "never", "other", "gone_old", "gone_recent", "flap_on", "flap_off", "old_only", "old_flap", "long_gone", "late", "just_now", "pre5", "pre8", "pre12"}
 )
 
 type selSpec struct {
@@ -1037,6 +1064,9 @@ func spansFor(pattern string, lbSec int64) []promsrv.RelSpan {
 		return []promsrv.RelSpan{{FromSec: start, ToSec: -(2*hour + 40*60)}}
 	case "gone_recent":
 		return []promsrv.RelSpan{{FromSec: start, ToSec: -30 * 60}}
+	case "pre5", "pre8", "pre12": // solid, last sample 5 / 8 / 12 minutes before the lookback window starts
+		n, _ := strconv.Atoi(strings.TrimPrefix(pattern, "pre"))
+		return []promsrv.RelSpan{{FromSec: -(lbSec + 4*hour), ToSec: -(lbSec + int64(n)*60)}}
 	case "old_only": // solid, ends 20 minutes before the lookback window starts
 		return []promsrv.RelSpan{{FromSec: -(lbSec + 4*hour), ToSec: -(lbSec + 20*60)}}
 	case "long_gone": // ended well before anything pint can see
@@ -1168,12 +1198,15 @@ func genCase(t *rapid.T) Case {
 		c.Name = rapid.SampledFrom(metrics).Draw(t, "name")
 	}
 	// 3h / 6h / 4h30m / 5h30m put the window start at four different phases of pint's 2h slice grid
-	lbChoices := []string{"6h", "6h", "3h", "3h", "12h", "4h30m", "5h30m"}
+	// below the 2h slice size pint sends one query starting exactly at now-lookback; from 2h on the window is
+	// sliced (see alignmentZone). 1h and 1h4m, 3h / 6h / 4h30m / 5h30m put the window start at different phases
+	// of the step grid and of the slice grid.
+	lbChoices := []string{"20m", "1h", "1h4m", "90m", "2h", "3h", "3h", "6h", "6h", "12h", "4h30m", "5h30m"}
 	if vstat.Tier() == "thorough" {
 		lbChoices = append(lbChoices, "24h", "")
 	}
 	c.LookbackRange = rapid.SampledFrom(lbChoices).Draw(t, "lookback")
-	c.LookbackStep = rapid.SampledFrom([]string{"5m", "5m", "1m"}).Draw(t, "step")
+	c.LookbackStep = rapid.SampledFrom([]string{"5m", "5m", "1m", "7m"}).Draw(t, "step")
 	if c.LookbackRange == "" || c.LookbackRange == "24h" {
 		c.LookbackStep = "5m"
 	}
@@ -1210,7 +1243,7 @@ func patternGroup(p string) string {
 		return "present"
 	case "never", "long_gone":
 		return "empty"
-	case "old_only", "old_flap":
+	case "old_only", "old_flap", "pre5", "pre8", "pre12":
 		return "prewindow"
 	case "other":
 		return "otherlabels"
